@@ -221,20 +221,29 @@ namespace OP2Utility::XFile
 		return fs::path(pathStr).filename().string();
 	}
 
+	namespace {
+		// Remove leading references to the current directory: "./a/b" -> "a/b", "./a" -> "a"
+		std::string RemoveLeadingCurrentDirectory(std::string pathStr)
+		{
+			while (pathStr.size() >= 2 && pathStr[0] == '.' && pathStr[1] == '/') {
+				pathStr.erase(0, 2);
+				// Also remove repeated separators following the dot: ".//a" -> "a"
+				while (!pathStr.empty() && pathStr[0] == '/') {
+					pathStr.erase(0, 1);
+				}
+			}
+			return pathStr;
+		}
+	}
+
 	bool PathsAreEqual(std::string pathStr1, std::string pathStr2)
 	{
 		StringUtility::ConvertToUpperInPlace(pathStr1);
 		StringUtility::ConvertToUpperInPlace(pathStr2);
 
-		fs::path path1(pathStr1);
-		if (path1.has_relative_path() && path1.relative_path() == path1.filename()) {
-			path1 = ("./" + pathStr1);
-		}
-
-		fs::path path2(pathStr2);
-		if (path2.has_relative_path() && path2.relative_path() == path2.filename()) {
-			path2 = ("./" + pathStr2);
-		}
+		// A leading "./" does not change which file a relative path names, with or without directories
+		const fs::path path1(RemoveLeadingCurrentDirectory(pathStr1));
+		const fs::path path2(RemoveLeadingCurrentDirectory(pathStr2));
 
 		return path1 == path2;
 	}
